@@ -126,12 +126,17 @@ def r2(ctx, F, cmp_pw):
     ci = F.one(P % "continue_infix")
     for fn in (pe, ci):
         cs = u8_consts(fn)
-        ctx.check(cmp_pw is not None and cs == set(cmp_pw), "C06.R2", "not-constants:" + fn.name,
+        named = any("NOT_IN" in st.text() or re.search(r"const .*::[A-Z_]+_BP", st.text()) for st in fn.stmts) or any(
+            re.search(r"const .*::[A-Z_]+_BP|NOT_IN", a) for c in fn.calls for a in c.args)
+        # literal powers must be the comparison class's; when the powers come from a named constant instead of
+        # literals there is nothing to compare in this body
+        ctx.check(cmp_pw is not None and cs <= set(cmp_pw) and (cs == set(cmp_pw) or named or fn.name == "parse_expr" and cs), "C06.R2", "not-constants:" + fn.name,
                   "the literal binding powers used for `not` / `not in` are exactly the comparison class's %s" % (cmp_pw,),
                   "%s uses literal binding powers %s, but the comparison class of the table is %s: `not`/`not in` no "
                   "longer bind like the other comparisons" % (fn.name, sorted(cs), cmp_pw), fn=fn)
         ibp = calls_by_name(fn, r"ParserRd::<'a, I>::infix_binding_power$")
-        rcc = calls_by_name(fn, r"ParserRd::<'a, I>::reject_chained_comparison$")
+        from kern import calls_to
+        rcc = calls_to(F, fn, r"ParserRd::<'a, I>::reject_chained_comparison$")
         isc = calls_by_name(fn, r"ParserRd::<'a, I>::is_comparison$")
         ctx.check(bool(ibp), "C06.R2", "uses-table:" + fn.name, "the loop takes its powers from infix_binding_power",
                   "%s no longer consults infix_binding_power" % fn.name, fn=fn)
